@@ -67,7 +67,7 @@ def renderOut (a : Nat) : Out → Option String
   | .ev (.drainRet ok) => some s!"ret {sendStr ok}"
   | .ev (.spawnRet r) => some s!"ret {spawnRetStr r}"
   | .ev (.emit to e) => some s!"emit {to} {supEvStr e}"
-  | .ev (.join r) => some s!"join {a} {match r with | .ok => "Ok" | .cancelled => "Cancelled"}"
+  | .ev (.join r) => some s!"join {a} {match r with | .ok => "Ok" | .cancelled => "Cancelled" | .panic => "Panic"}"
   | .ev _ => none
   | .note s => some s
   | .eff _ => none
@@ -208,7 +208,8 @@ def noteEvents (op : Op) (note : String) : Option (List (Nat × Ev)) :=
     pure [(e.who, .emit p e), (p, .supArrive e)]
   | ["join", a, r] => do
     let a ← a.toNat?
-    let r ← (if r == "Ok" then some JoinRes.ok else if r == "Cancelled" then some JoinRes.cancelled else none)
+    let r ← (if r == "Ok" then some JoinRes.ok else if r == "Cancelled" then some JoinRes.cancelled
+             else if r == "Panic" then some JoinRes.panic else none)
     pure [(a, .join r)]
   | ["notask"] | ["nospawn"] | ["noopen"] | ["busy"] | ["respawn"] => pure []
   | _ => none
